@@ -93,6 +93,23 @@ CHECKS = {
             "compared call-by-call with fresh instances; exhaustive for pairs of the pool, statistical for longer histories.",
             "The fresh-instance result computed in the same process is the reference.",
             "DESIGN.md section 2, C12"),
+    "C13": ("exploration",
+            "deterministic cooperative schedulers (token granularity through the public lexer= parameter, call granularity "
+            "through sys.monitoring PY_START) plus free-running threads, with a determinism oracle: every instance's result "
+            "must equal its solo result from a fresh interpreter",
+            "All interleavings of the token fetches of two short clashing parses (per program pair), random token-level "
+            "and call-level schedules over parse+generate+visit of 2-4 longer programs, 8 free-running threads with a 1e-6 "
+            "switch interval, and sequential alternation; distinct executed schedules are counted from the recorded step "
+            "sequences.",
+            "Solo results come from one fresh interpreter per program, so module-level caches cannot pollute the oracle.",
+            "DESIGN.md section 2, C13"),
+    "C16": ("exploration",
+            "deterministic step-counter monitor (sys.monitoring PY_START inside pycparser) over scalable input families at "
+            "doubling sizes; CPU-time monitor with a re-run-alone confirmation for the lexer's regex families",
+            "About 80 repetition/nesting/composition families and prefixes of the benchmark files are parsed at k = 8..256 "
+            "(quick) / 8..1024 (thorough); growth ratio, per-character step budget and (for regexes) CPU seconds decide.",
+            "RecursionError on deep nests is tolerated; regex thresholds have >= 40x margin.",
+            "DESIGN.md section 2, C16"),
     "C14": ("exploration",
             "specification monitor: sentinel-value sweep of every node class against an independent reader of "
             "_c_ast.cfg (also on a module regenerated by _ast_gen.py), plus counting/single-hook visitors and show() "
